@@ -500,6 +500,51 @@ func (c *Check) noGlobalWrites(rule string) {
 	if bad == 0 {
 		c.Held(rule, "no-global-writes", "", fmt.Sprintf("%d functions reachable from tx/block/ante/genesis entry points store to no package-level variable", n))
 	}
+	// process-local state reachable from a keeper: (1) keeper structs carry only service handles and immutable values
+	nFields := 0
+	for _, mod := range []string{"bitcoin", "relayer", "goat", "locking"} {
+		kt := p.LookupType("x/"+mod+"/keeper", "Keeper")
+		st := kt.Underlying().(*types.Struct)
+		for i := 0; i < st.NumFields(); i++ {
+			f := st.Field(i)
+			nFields++
+			if why := stateCarrier(f.Type()); why != "" {
+				c.Violated(rule, "keeper-field x/"+mod+"/keeper.Keeper."+f.Name(), p.Pos(f.Pos()), "keeper field of type "+f.Type().String()+" can carry process-local mutable state ("+why+"): results would depend on the process history, not only on committed state")
+			}
+		}
+	}
+	c.Held(rule, "keeper-fields-are-service-handles", "", fmt.Sprintf("%d keeper fields inspected: collections, codecs, store service, logger, keeper interfaces, engine client, immutable basics", nFields))
+	// (2) no mutation through pointers/maps reachable from a receiver, (3) no sync.Map mutators
+	mut := 0
+	for f := range reach {
+		for _, b := range f.Blocks {
+			for _, in := range b.Instrs {
+				switch x := in.(type) {
+				case *ssa.Store:
+					if throughReceiverPointer(f, x.Addr) {
+						mut++
+						c.Violated(rule, "receiver-reachable-store @ "+FuncKey(f), p.InstrPos(in), "store through a pointer reachable from the receiver (survives the call, not part of committed state): "+p.R(f).E(x.Addr))
+					}
+				case *ssa.MapUpdate:
+					if throughReceiverPointer(f, x.Map) || receiverField(f, x.Map) {
+						mut++
+						c.Violated(rule, "receiver-reachable-map-update @ "+FuncKey(f), p.InstrPos(in), "update of a map held by the receiver: "+p.R(f).E(x.Map))
+					}
+				case ssa.CallInstruction:
+					if cf := calleeFunc(x.Common()); cf != nil {
+						fn := cf.FullName()
+						if strings.HasPrefix(fn, "(*sync.Map).") && cf.Name() != "Load" && cf.Name() != "Range" {
+							mut++
+							c.Violated(rule, "sync.Map-mutation @ "+FuncKey(f), p.InstrPos(in), "process-local cache mutated from consensus code: "+fn)
+						}
+					}
+				}
+			}
+		}
+	}
+	if mut == 0 {
+		c.Held(rule, "no-receiver-reachable-mutation", "", "no store/map update through receiver-held pointers and no sync.Map mutation in consensus code")
+	}
 	// positive control: the hash scratch pools are seen (whitelisted by symbol: no value survives a call)
 	if poolUses == 0 {
 		c.Violated(rule, "positive-control sha256Pool", "", "the known package-level pool uses were not found: reachability is broken reason=not-established")
@@ -524,4 +569,114 @@ func globalRoot(v ssa.Value) *ssa.Global {
 		}
 	}
 	return nil
+}
+
+// stateCarrier: can a keeper field of this type hold mutable process-local state?
+func stateCarrier(t types.Type) string {
+	ts := t.String()
+	switch {
+	case strings.HasPrefix(ts, "cosmossdk.io/collections."):
+		return ""
+	case ts == "cosmossdk.io/core/store.KVStoreService", ts == "cosmossdk.io/log.Logger", ts == "cosmossdk.io/core/address.Codec",
+		ts == "github.com/cosmos/cosmos-sdk/codec.BinaryCodec", ts == "github.com/cosmos/cosmos-sdk/codec.Codec":
+		return ""
+	case strings.HasPrefix(ts, modPath+"/x/") && strings.Contains(ts, "/types.") && strings.HasSuffix(ts, "Keeper"):
+		return "" // keeper dependency interfaces
+	case ts == modPath+"/pkg/ethrpc.EngineClient":
+		return ""
+	}
+	switch u := t.Underlying().(type) {
+	case *types.Basic:
+		return ""
+	case *types.Pointer:
+		return "pointer"
+	case *types.Map:
+		return "map"
+	case *types.Slice:
+		return "slice"
+	case *types.Chan:
+		return "channel"
+	case *types.Struct:
+		if strings.HasPrefix(ts, "sync.") {
+			return "sync primitive"
+		}
+		for i := 0; i < u.NumFields(); i++ {
+			if w := stateCarrier(u.Field(i).Type()); w != "" {
+				return "struct containing " + w
+			}
+		}
+		return ""
+	case *types.Interface:
+		return "interface of unknown implementation"
+	}
+	return "unreviewed type"
+}
+
+// receiverRoot: is v the receiver parameter (or its local copy)?
+func receiverRoot(fn *ssa.Function, v ssa.Value) bool {
+	root := rootOf(fn)
+	_ = root
+	if len(fn.Params) == 0 || fn.Signature.Recv() == nil {
+		return false
+	}
+	if v == ssa.Value(fn.Params[0]) {
+		return true
+	}
+	if a, ok := v.(*ssa.Alloc); ok {
+		for _, ref := range *a.Referrers() {
+			if st, ok := ref.(*ssa.Store); ok && st.Addr == a && st.Val == ssa.Value(fn.Params[0]) {
+				return true
+			}
+		}
+	}
+	return false
+}
+
+// throughReceiverPointer: the address is reached from the receiver through at least one pointer dereference
+// (or the receiver itself is a pointer): memory that outlives the call.
+func throughReceiverPointer(fn *ssa.Function, addr ssa.Value) bool {
+	deref := false
+	v := addr
+	for i := 0; i < 20; i++ {
+		switch x := v.(type) {
+		case *ssa.FieldAddr:
+			v = x.X
+		case *ssa.IndexAddr:
+			if _, isSlice := x.X.Type().Underlying().(*types.Slice); isSlice {
+				deref = true
+			}
+			v = x.X
+		case *ssa.Field:
+			v = x.X
+		case *ssa.UnOp:
+			deref = true
+			v = x.X
+		default:
+			if receiverRoot(fn, v) {
+				if _, isPtr := fn.Params[0].Type().Underlying().(*types.Pointer); isPtr {
+					return true
+				}
+				return deref
+			}
+			return false
+		}
+	}
+	return false
+}
+
+// receiverField: v is a value loaded from a field of the receiver.
+func receiverField(fn *ssa.Function, v ssa.Value) bool {
+	for i := 0; i < 20; i++ {
+		switch x := v.(type) {
+		case *ssa.UnOp:
+			v = x.X
+		case *ssa.FieldAddr:
+			v = x.X
+		case *ssa.Field:
+			v = x.X
+		default:
+			return receiverRoot(fn, v)
+		}
+	}
+	return false
 }
